@@ -263,7 +263,7 @@ pub struct Explored {
 }
 
 /// depth-first exploration of the SAT oracle's model choices (stateless model checking of the real code)
-pub fn explore<F>(budget: usize, scripted: bool, cap: usize, mut run: F) -> Explored
+pub fn explore<F>(budget: usize, scripted: bool, cap: usize, backend: &str, mut run: F) -> Explored
 where
     F: FnMut(&Shared) -> Outcome,
 {
@@ -272,6 +272,7 @@ where
     loop {
         let ctl = Ctl::new(scripted, script.clone());
         ctl.borrow_mut().cap = cap;
+        ctl.borrow_mut().backend = backend.to_string();
         let o = run(&ctl);
         ex.runs += 1;
         *ex.outcomes.entry(o).or_insert(0) += 1;
@@ -340,6 +341,120 @@ fn arg_lists(labels: &[usize], k: usize) -> Vec<Vec<usize>> {
     res
 }
 
+pub fn build_cred<'a>(af: &'a AAFramework<usize>, sem: &str, enc: &str, ctl: &Shared) -> Box<dyn CredulousAcceptanceComputer<usize> + 'a> {
+    let fac = || obs::factory(ctl);
+    let encb = |e: &str| -> Box<dyn ConstraintsEncoder<usize>> { Box::new(TracingEncoder::new(ctl, raw_encoder(e))) };
+    match sem {
+        "GR" => Box::new(GroundedSemanticsSolver::new(af)),
+        "CO" | "PR" => Box::new(CompleteSemanticsSolver::new_with_sat_solver_factory_and_constraints_encoder(af, fac(), encb(enc))),
+        "ST" => Box::new(StableSemanticsSolver::new_with_sat_solver_factory(af, fac())),
+        "SST" => Box::new(SemiStableSemanticsSolver::new_with_sat_solver_factory_and_constraints_encoder(af, fac(), encb(enc))),
+        "STG" => Box::new(StageSemanticsSolver::new_with_sat_solver_factory_and_constraints_encoder(af, fac(), encb(enc))),
+        "ID" => Box::new(IdealSemanticsSolver::new_with_sat_solver_factory_and_constraints_encoder(af, fac(), encb(enc))),
+        _ => panic!("bad sem"),
+    }
+}
+
+pub fn build_skep<'a>(af: &'a AAFramework<usize>, sem: &str, enc: &str, ctl: &Shared) -> Box<dyn SkepticalAcceptanceComputer<usize> + 'a> {
+    let fac = || obs::factory(ctl);
+    let encb = |e: &str| -> Box<dyn ConstraintsEncoder<usize>> { Box::new(TracingEncoder::new(ctl, raw_encoder(e))) };
+    match sem {
+        "GR" | "CO" => Box::new(GroundedSemanticsSolver::new(af)),
+        "PR" => Box::new(PreferredSemanticsSolver::new_with_sat_solver_factory_and_constraints_encoder(af, fac(), encb(enc))),
+        "ST" => Box::new(StableSemanticsSolver::new_with_sat_solver_factory(af, fac())),
+        "SST" => Box::new(SemiStableSemanticsSolver::new_with_sat_solver_factory_and_constraints_encoder(af, fac(), encb(enc))),
+        "STG" => Box::new(StageSemanticsSolver::new_with_sat_solver_factory_and_constraints_encoder(af, fac(), encb(enc))),
+        "ID" => Box::new(IdealSemanticsSolver::new_with_sat_solver_factory_and_constraints_encoder(af, fac(), encb(enc))),
+        _ => panic!("bad sem"),
+    }
+}
+
+/// C06: one solver object per (semantics, kind, encoder, backend) answers a seeded sequence of queries with repetitions and
+/// alternating certificate flag; all statuses obtained for one query, in any configuration and at any position, must agree
+pub fn cmd_seq(a: &Args) {
+    use rand::rngs::StdRng;
+    use rand::{Rng, SeedableRng};
+    let afs = afio::read_afs(&a.get("afs", ""));
+    let sems = a.list("sems", "GR,CO,PR,ST,SST,STG,ID");
+    let presents = a.list("present", "compact");
+    let backends: Vec<String> = a.get("backends", "cadical").split(',').map(|s| s.to_string()).collect();
+    let seed: u64 = a.get("seed", "1").parse().unwrap();
+    let out = a.get("out", "/dev/stdout");
+    let threads: usize = a.get("threads", "16").parse().unwrap();
+    let jobs: Vec<(usize, AfSpec)> = afs.into_iter().enumerate().collect();
+    let results = util::par_map(jobs, threads, |(idx, spec)| {
+        util::install_quiet_panic_hook();
+        let mut lines: Vec<String> = vec![];
+        if spec.n == 0 {
+            return lines;
+        }
+        for (pi, present) in presents.iter().enumerate() {
+            let pseed = seed.wrapping_mul(1_000_003).wrapping_add((*idx as u64) * 17 + pi as u64);
+            let af = afio::build(spec, present, pseed);
+            let proj = afio::projection(&af);
+            lines.push(json!({"ev": "af", "idx": idx, "tag": spec.tag, "present": present, "n": spec.n,
+                "args": proj["args"], "ids": proj["ids"], "att": proj["att"], "sems": []}).to_string());
+            let mut rng = StdRng::seed_from_u64(pseed);
+            for sem in &sems {
+                for kind in ["DC", "DS"] {
+                    // (arg) -> list of (status, config description)
+                    let mut by_arg: BTreeMap<usize, Vec<(String, String)>> = BTreeMap::new();
+                    let seqlen = 2 * spec.n + 2;
+                    let seq: Vec<(usize, bool)> = (0..seqlen).map(|_| (rng.gen_range(1..=spec.n), rng.gen_bool(0.5))).collect();
+                    for enc in encoders_for(sem, kind) {
+                        for backend in &backends {
+                            if backend != "cadical" && enc == "none" && sem != "ST" {
+                                continue; // no SAT solver involved
+                            }
+                            let ctl = Ctl::new(false, vec![]);
+                            ctl.borrow_mut().backend = backend.clone();
+                            ctl.borrow_mut().keep_clauses = false;
+                            // the solver object lives across the whole sequence
+                            let r = catch_unwind(AssertUnwindSafe(|| {
+                                let mut res: Vec<(usize, bool, String)> = vec![];
+                                if kind == "DC" {
+                                    let mut s = build_cred(&af, sem, enc, &ctl);
+                                    for (arg, cert) in &seq {
+                                        let q = catch_unwind(AssertUnwindSafe(|| if *cert { s.is_credulously_accepted_with_certificate(arg).0 } else { s.is_credulously_accepted(arg) }));
+                                        res.push((*arg, *cert, match q { Ok(true) => "yes".into(), Ok(false) => "no".into(), Err(_) => "panic".into() }));
+                                    }
+                                } else {
+                                    let mut s = build_skep(&af, sem, enc, &ctl);
+                                    for (arg, cert) in &seq {
+                                        let q = catch_unwind(AssertUnwindSafe(|| if *cert { s.is_skeptically_accepted_with_certificate(arg).0 } else { s.is_skeptically_accepted(arg) }));
+                                        res.push((*arg, *cert, match q { Ok(true) => "yes".into(), Ok(false) => "no".into(), Err(_) => "panic".into() }));
+                                    }
+                                }
+                                res
+                            }));
+                            let bname = if backend == "cadical" { "embedded" } else { "external" };
+                            if let Ok(res) = r {
+                                for (pos, (arg, cert, st)) in res.iter().enumerate() {
+                                    by_arg.entry(*arg).or_default().push((st.clone(), format!("{}/{}/{}/pos{}", enc, bname, if *cert { "cert" } else { "nocert" }, pos)));
+                                }
+                            } else {
+                                by_arg.entry(0).or_default().push(("panic".into(), format!("{}/{}/construction", enc, bname)));
+                            }
+                        }
+                    }
+                    for (arg, v) in &by_arg {
+                        let statuses: Vec<&String> = v.iter().map(|x| &x.0).collect();
+                        let mut distinct: Vec<&String> = statuses.clone();
+                        distinct.sort();
+                        distinct.dedup();
+                        let detail: Vec<String> = if distinct.len() > 1 { v.iter().map(|x| format!("{}={}", x.1, x.0)).collect() } else { vec![] };
+                        lines.push(json!({"ev": "agree", "sem": sem, "kind": kind, "arg": arg, "statuses": distinct, "n": statuses.len(), "detail": detail}).to_string());
+                    }
+                }
+            }
+            let proj2 = afio::projection(&af);
+            lines.push(json!({"ev": "frame", "same": proj == proj2}).to_string());
+        }
+        lines
+    });
+    util::write_lines(&out, results.into_iter().flatten());
+}
+
 pub fn cmd_static(a: &Args) {
     let afs = afio::read_afs(&a.get("afs", ""));
     let sems = a.list("sems", "GR,CO,PR,ST,SST,STG,ID");
@@ -357,10 +472,12 @@ pub fn cmd_static(a: &Args) {
     let seed: u64 = a.get("seed", "1").parse().unwrap();
     let with_cc = a.get("cc", "no") == "yes";
     let fault = a.get("fault", "no") == "yes";
+    let failing = a.get("failing", "no") == "yes";
     let cap: usize = a.get("cap", "20000").parse().unwrap();
     let maxq: usize = a.get("maxq", "1000000").parse().unwrap();
     let out = a.get("out", "/dev/stdout");
     let threads: usize = a.get("threads", "16").parse().unwrap();
+    let backend = a.get("backend", "cadical");
 
     let jobs: Vec<(usize, AfSpec)> = afs.into_iter().enumerate().collect();
     let results = util::par_map(jobs, threads, |(idx, spec)| {
@@ -386,21 +503,33 @@ pub fn cmd_static(a: &Args) {
                             for enc in &encs {
                                 nq += 1;
                                 if nq > maxq { continue; }
+                                if failing {
+                                    // C17: the backend fails at every call (process exit, truncated / garbled reply, ...)
+                                    let ctl = Ctl::new(false, vec![]);
+                                    ctl.borrow_mut().backend = backend.clone();
+                                    let mut o = run_query(&af, sem, kind, qa, *cert, enc, &ctl);
+                                    o.faulted = ctl.borrow().n_solve > 0;
+                                    lines.push(json!({"ev": "fault", "sem": sem, "kind": kind, "args": qa, "cert": cert,
+                                        "enc": enc, "at": 1, "of": ctl.borrow().n_solve, "how": backend, "out": outcome_json(&o)}).to_string());
+                                    continue;
+                                }
                                 if fault {
                                     // C17: fault-free run counts the calls, then one run per fault position
                                     let ctl0 = Ctl::new(false, vec![]);
+                                    ctl0.borrow_mut().backend = backend.clone();
                                     let _ = run_query(&af, sem, kind, qa, *cert, enc, &ctl0);
                                     let k = ctl0.borrow().n_solve;
                                     for pos in 1..=k {
                                         let ctl = Ctl::new(false, vec![]);
                                         ctl.borrow_mut().fault_at = Some(pos);
+                                        ctl.borrow_mut().backend = backend.clone();
                                         let o = run_query(&af, sem, kind, qa, *cert, enc, &ctl);
                                         lines.push(json!({"ev": "fault", "sem": sem, "kind": kind, "args": qa, "cert": cert,
                                             "enc": enc, "at": pos, "of": k, "out": outcome_json(&o)}).to_string());
                                     }
                                     continue;
                                 }
-                                let ex = explore(budget, oracle == "dfs", cap, |ctl| run_query(&af, sem, kind, qa, *cert, enc, ctl));
+                                let ex = explore(budget, oracle == "dfs", cap, &backend, |ctl| run_query(&af, sem, kind, qa, *cert, enc, ctl));
                                 for (o, mult) in &ex.outcomes {
                                     let ent = by_out.entry(o.clone()).or_insert((vec![], 0, 0, true));
                                     ent.0.push(enc.to_string());
@@ -419,7 +548,7 @@ pub fn cmd_static(a: &Args) {
                             }
                             for (o, (encs, mult, runs, exh)) in &by_out {
                                 lines.push(json!({"ev": "q", "sem": sem, "kind": kind, "args": qa, "cert": cert, "encs": encs,
-                                    "oracle": oracle, "out": outcome_json(o), "mult": mult, "runs": runs, "exh": exh}).to_string());
+                                    "oracle": oracle, "backend": backend, "out": outcome_json(o), "mult": mult, "runs": runs, "exh": exh}).to_string());
                             }
                             for ((base, c), (encs, mult)) in &by_cc {
                                 lines.push(json!({"ev": "cc", "sem": sem, "kind": kind, "encs": encs, "base": base,
